@@ -621,6 +621,12 @@ pub(crate) struct SubscriptionSender {
 
 impl SubscriptionSender {
 	fn send(&self, msg: Box<RawValue>) -> Result<(), TrySubscriptionSendError> {
+		// Once a message has been dropped the subscription is closed for lagging: nothing more must be
+		// delivered after the gap, even if the consumer has caught up before the unsubscribe went out.
+		if self.lagged.has_lagged() {
+			return Err(TrySubscriptionSendError::TooSlow(msg));
+		}
+
 		match self.inner.try_send(msg) {
 			Ok(_) => Ok(()),
 			Err(TrySendError::Closed(_)) => Err(TrySubscriptionSendError::Closed),
